@@ -29,7 +29,32 @@ type dictObj interface {
 	values() []string
 	kvs() [][2]string
 	toDictOfKVs() dictObj
+	scribble() func()
 }
+
+// scribble takes the three enumerations now and returns what their holder may do with them later: overwrite
+// an element and append (into spare capacity, if there is any). A Go caller owns what an enumeration returned;
+// none of it may reach the dictionary, whatever was added in between.
+func scribbleOn[K comparable, V any](d dict.Dict[K, V], jk K, jv V) func() {
+	ks, vs, kvs := dict.Keys(d), dict.Values(d), dict.KVs(d)
+	return func() {
+		_ = append(ks, jk)
+		_ = append(vs, jv)
+		_ = append(kvs, frt.NewTuple2(jk, jv))
+		if len(ks) > 0 {
+			ks[0] = jk
+		}
+		if len(vs) > 0 {
+			vs[0] = jv
+		}
+		if len(kvs) > 0 {
+			kvs[0] = frt.NewTuple2(jk, jv)
+		}
+	}
+}
+func (x dictSI) scribble() func() { return scribbleOn(x.d, "junk-key", -12345) }
+func (x dictIS) scribble() func() { return scribbleOn(x.d, -12345, "junk-value") }
+func (x dictTI) scribble() func() { return scribbleOn(x.d, frt.NewTuple2("junk", "key"), -12345) }
 
 type dictSI struct{ d dict.Dict[string, int] }
 type dictIS struct{ d dict.Dict[int, string] }
@@ -130,6 +155,7 @@ type dictVal struct {
 	kind  string // sI or iS
 	obj   dictObj
 	model map[string]string // shared by aliases, like the dictionary itself
+	stale func()            // what the holder of the previous enumeration results does to them at the next look
 }
 
 type bufVal struct {
@@ -183,6 +209,12 @@ func (e *engC14) checkDict(id int, d *dictVal) (string, string) {
 			}
 		}
 	}
+	// what was enumerated at the previous look is overwritten and appended to now, after whatever happened in between
+	if d.stale != nil {
+		d.stale()
+	}
+	d.obj.scribble()()
+	d.stale = d.obj.scribble()
 	var mk, mvs, mkv []string
 	for k, v := range d.model {
 		mk = append(mk, k)
@@ -271,6 +303,8 @@ var fmtValues = map[string]fmtVal{
 	"string:abc":        {v: "abc", str: "abc", isStr: true},
 	"string:empty":      {v: "", str: "", isStr: true},
 	"string:pct":        {v: "100%d", str: "100%d", isStr: true},
+	"string:pctbang":    {v: "50%!", str: "50%!", isStr: true},
+	"string:noverb":     {v: "%!(NOVERB)", str: "%!(NOVERB)", isStr: true},
 	"myStr:xyz":         {v: myStr("xyz"), str: "xyz", isStr: true},
 	"bool:true":         {v: true},
 	"struct":            {v: someStruct{1, "x"}},
@@ -559,7 +593,7 @@ func (e *engC14) apply(op Op) (executed bool, observable, msg string) {
 				return bad("format", "frt.SInterP(\"<%%s>\", %s) = %q, want Go %%v form %q", op.Fn, got, want)
 			}
 		}
-		if got2 := frt.SInterP("%s and %s", fv.v, "s"); !gostrings.HasSuffix(got2, " and s") || gostrings.Contains(got2, "%!") {
+		if got2 := frt.SInterP("%s and %s", fv.v, "s"); !gostrings.HasSuffix(got2, " and s") || (fv.isStr && got2 != fv.str+" and s") || (!fv.isStr && gostrings.Contains(got2, "%!")) {
 			return bad("format", "frt.SInterP with two holes on %s gives %q", op.Fn, got2)
 		}
 	case "frt.Sprintf":
